@@ -234,7 +234,7 @@ for _f in ["registry_C20.py.txt", "registry_C19.py.txt", "registry_C07.py.txt", 
         exec(compile(open(_p).read(), _p, "exec"))
 
 MANIFEST_META = {
-    "hook_commits": ["db0b83b", "f0ff4d9", "d998a9e"],
+    "hook_commits": ["db0b83b", "f0ff4d9", "d998a9e", "0811933"],
     "pending_reason": {},
     "engines": [
         {"name": "E1 piece store", "path": "harness/checks/e1_store, harness/sched", "serves_properties": ["C01", "C03"], "kind_free_text": "real tor/piece.Pieces under a deterministic yield-point scheduler (stateless DFS / random) inside a synctest bubble, and free-running under -race; porcupine visibility model; reflect accounting at cuts; LRU in virtual time"},
